@@ -180,7 +180,7 @@ type raceCase struct {
 }
 
 var raceOps = []string{"getattr", "read", "write", "readdir", "walk", "walkgetattr", "setattr", "mkdir", "fsync", "readlink", "statfs", "open", "xattrwalk", "unlinkat", "renameat"}
-var raceUnbinds = []string{"clunk", "remove", "replace-walk", "replace-attach", "disconnect"}
+var raceUnbinds = []string{"clunk", "remove", "replace-walk", "replace-attach", "disconnect", "disconnect-other"}
 
 func runRaceCase(c raceCase) *fail {
 	fs := memfs.New(memfs.Options{NativeWalkGetAttr: c.Native})
@@ -266,6 +266,22 @@ func runRaceCase(c raceCase) *fail {
 			return failf("harness-setup", "HARNESS-ERROR setup %s => %s", m, r)
 		}
 	}
+	// disconnect-other: a second connection with fids on the root, the directory,
+	// the file in it, a sibling and a deeper entry goes away while the operation
+	// is held (its fids are released without waiting for any lock of the first)
+	var s2 *peers.Session
+	if c.Unbind == "disconnect-other" {
+		s2 = peers.Start(srv)
+		if _, err := s2.Version(64<<10, "9P2000.L.Google.7"); err != nil {
+			return failf("harness-version", "HARNESS-ERROR %v", err)
+		}
+		for i, m := range []*refcodec.Msg{tAttach(10, nofid, ""), tWalk(10, 11, "d"), tWalk(10, 12, "d", "f"), tWalk(10, 13, "d", "e"), tWalk(10, 14, "l"), tWalk(11, 15)} {
+			m.Tag = uint16(1 + i)
+			if r, err := s2.Call(m); err != nil || r.Type == refcodec.Rlerror {
+				return failf("harness-setup", "HARNESS-ERROR second connection %s => %v %v", m, r, err)
+			}
+		}
+	}
 	gate := memfs.NewGate(func(cl *memfs.Call) bool { return cl.Op == opName })
 	fs.AddGate(gate)
 	defer gate.Release()
@@ -298,6 +314,10 @@ func runRaceCase(c raceCase) *fail {
 		if _, err := s.Recv(60 * time.Millisecond); err == nil {
 			frames++
 		}
+	} else if s2 != nil {
+		// Handle of the second connection normally returns at once; it may have to
+		// wait for the held operation when that holds a directory's child table
+		s2.Close(300 * time.Millisecond)
 	} else {
 		s.C2S.CloseWrite()
 		time.Sleep(10 * time.Millisecond)
@@ -323,12 +343,18 @@ func runRaceCase(c raceCase) *fail {
 	}
 	for frames < want {
 		if _, err := s.Recv(20 * time.Second); err != nil {
+			if s2 != nil {
+				return failf("no-reply:race", "after releasing %s (a second connection had gone away meanwhile): no reply (%v)", opName, err)
+			}
 			if ub == nil {
 				break // after a disconnect the reply may be unsendable
 			}
 			return failf("no-reply:race", "after releasing %s: %d of %d replies (%v)", opName, frames, want, err)
 		}
 		frames++
+	}
+	if s2 != nil && !s2.Close(20*time.Second) {
+		return failf("handle-did-not-return", "Handle of the second connection did not return after the race %s/%s", c.Op, c.Unbind)
 	}
 	if !s.Close(20 * time.Second) {
 		return failf("handle-did-not-return", "Handle did not return after the race %s/%s", c.Op, c.Unbind)
